@@ -104,7 +104,11 @@ def load_variants():
                       ("none_tests", "== None / != None and is None / is not None exchanged everywhere"),
                       ("expand_augassign", "every augmented assignment on a name expanded"),
                       ("flip_comparisons", "every order comparison a<b written b>a"),
-                      ("else_after_return", "statements after an `if ...: return/raise/continue/break` moved into its else branch")):
+                      ("else_after_return", "statements after an `if ...: return/raise/continue/break` moved into its else branch"),
+                      ("temp_return", "every `return <expr>` written as `_ret = <expr>; return _ret`"),
+                      ("ternary_to_if", "every `x = a if c else b` written as an if statement"),
+                      ("name_condition", "every call / comparison / Boolean test of an if statement bound to a name first"),
+                      ("listcomp_to_loop", "every `x = [e for v in xs if c]` written as a loop with append")):
         vs.append({"id": "s-global-" + tid.replace("_", "-"), "expect": "silent", "props": allp, "transform": tid, "note": note})
     for mp in sorted(glob.glob(os.path.join(VERIF, "seeded", "*", "meta.json"))):
         m = json.load(open(mp))
